@@ -188,10 +188,12 @@ func targets() []target {
 	}
 }
 
+var allTargets = targets()
+
 func findTarget(name string) *target {
-	for _, t := range targets() {
-		if t.name == name {
-			return &t
+	for i := range allTargets {
+		if allTargets[i].name == name {
+			return &allTargets[i]
 		}
 	}
 	return nil
@@ -250,6 +252,20 @@ func checkCarrier(t *target, cname string, x any) (sig, what string) {
 		out, ok := new(big.Rat).SetString(res.(string))
 		if ok && out.Cmp(in) == 0 {
 			return "", ""
+		}
+		// a float carrier is written with the shortest digits that identify it: the text must
+		// denote that same float (it need not be the float's exact decimal expansion)
+		if ok {
+			switch f := x.(type) {
+			case float64:
+				if g, _ := out.Float64(); g == f {
+					return "", ""
+				}
+			case float32:
+				if g, _ := out.Float32(); g == f {
+					return "", ""
+				}
+			}
 		}
 		return t.name + ":" + cname + "-value-changed", fmt.Sprintf("%s(%s %#v) = %q which does not denote %s", t.name, cname, x, res, in.RatString())
 	}
